@@ -13,7 +13,10 @@ Record layout := {
   y_pids : list string;              (* /proc listing while the process is there (sorted) *)
   y_children : list string;          (* pids whose stat names the process as parent *)
   y_zombies : list string;           (* other pids that are zombies *)
-  y_race_fd : string; y_race_task : string }.  (* kind 3: this descriptor / thread is gone when looked at *)
+  y_race_fd : string; y_race_task : string;   (* kind 3: this descriptor / thread is gone when looked at *)
+  y_del_fd : string;                 (* kind 0: this descriptor's target, the exe and the cwd end in " (deleted)" *)
+  y_maps_del : list string;          (* kind 0: mapped files of smaps whose path ends in " (deleted)" *)
+  y_devs : list string }.            (* tty nodes found by get_terminal_map() *)
 
 Definition dat (e z : bool) (ns : list string) (c : lcls) : data :=
   {| d_empty := e; d_zombie := z; d_names := ns; d_link := c |}.
@@ -29,26 +32,29 @@ Definition base (y : layout) (kind : nat) (g : bool) (k : akind) (x : who) (f : 
   | Self =>
       match f, k with
       | FStat, KRead => Ok (dat false zomb [] LOtherLink)
-      | FCmdline, KRead | FSmaps, KRead | FEnviron, KRead => Ok (dat (negb live) false [] LOtherLink)
-      | FExe, KReadlink => if live then Ok data0 else Err ENOENT
-      | FCwd, KReadlink => if zomb then Err ENOENT else Ok data0
+      | FSmaps, KRead => Ok (dat (negb live) false (if Nat.eqb kind 0 then y_maps_del y else []) LOtherLink)
+      | FCmdline, KRead | FEnviron, KRead => Ok (dat (negb live) false [] LOtherLink)
+      | FExe, KReadlink => if live then Ok (dat false false [] (if Nat.eqb kind 0 then LDel else LAbsOther)) else Err ENOENT
+      | FCwd, KReadlink => if zomb then Err ENOENT else Ok (dat false false [] (if Nat.eqb kind 0 then LDel else LAbsOther))
       | FFdDir, KListdir => if zomb then Err EACCES else Ok (dat false false (if live then map fst (y_fds y) else []) LOtherLink)
       | FIo, KOpen => if zomb then Err EACCES else Ok data0
       | FTaskDir, KListdir => Ok (dat false false (if zomb then [y_self y] else y_tasks y) LOtherLink)
       | FFdE, KReadlink => if race && String.eqb cur (y_race_fd y) then Err ENOENT
-                           else Ok (dat false false [] (link_of (y_fds y) cur))
+                           else Ok (dat false false [] (if Nat.eqb kind 0 && String.eqb cur (y_del_fd y) then LRegDel else link_of (y_fds y) cur))
       | FTaskStatE, KOpen => if race && String.eqb cur (y_race_task y) then Err ENOENT else Ok data0
       | FRollup, KOpen => if race then Err ENOENT else Ok data0
       | FRollup, KRead => Ok (dat (negb live) false [] LOtherLink)
       | _, _ => Ok data0
       end
   | Other =>
-      match k with
-      | KRead => Ok (dat false (mem cur (y_zombies y)) [] LOtherLink)
-      | _ => Ok data0
+      match f, k with
+      | FExeDel, _ | FCwdDel, _ | FTargetDelE, _ | FMapPathE, _ => Err ENOENT      (* nothing at "<path> (deleted)" *)
+      | _, KRead => Ok (dat false (mem cur (y_zombies y)) [] LOtherLink)
+      | _, _ => Ok data0
       end
   | _ =>
       match f, k with
+      | FDevDir, KListdir => Ok (dat false false (y_devs y) LOtherLink)
       | FRoot, KListdir => Ok (dat false false (if g then filter (fun n => negb (String.eqb n (y_self y))) (y_pids y) else y_pids y) LOtherLink)
       | _, _ => Ok data0
       end
@@ -63,7 +69,7 @@ Definition mk_world (y : layout) (kind : nat) (v : option nat) (denied : list na
 (* ---- rendering *)
 Definition kind_name (k : akind) : string :=
   match k with KOpen => "open" | KRead => "read" | KReadlink => "readlink" | KListdir => "listdir"
-             | KStat => "stat" | KLstat => "lstat" | KSys => "sys" end.
+             | KStat => "stat" | KLstat => "lstat" | KSys => "sys" | KAccess => "access" end.
 Definition render (y : layout) (f : fid) (cur : string) : string :=
   let P := y_self y in
   let sub s := P +++ "/" +++ s in
@@ -79,6 +85,11 @@ Definition render (y : layout) (f : fid) (cur : string) : string :=
   | FStatE => cur +++ "/stat"
   | FRoot => "" | FNetTcp => "net/tcp" | FNetTcp6 => "net/tcp6" | FNetUdp => "net/udp"
   | FNetUdp6 => "net/udp6" | FNetUnix => "net/unix"
+  (* outside procfs: "^" = the directory of the fake world's ordinary files *)
+  | FExeDel => "^exe-target (deleted)" | FCwdDel => "^cwd-dir (deleted)"
+  | FTargetDelE => "^t" +++ cur +++ " (deleted)" | FTargetE => "^t" +++ cur
+  | FMapPathE => "^" +++ cur | FGuessExe => "^exe-target"
+  | FDevDir => "^dev" | FDevE => "^dev/" +++ cur
   end.
 Definition jv_access (y : layout) (e : akind * fid * string) : jv :=
   let '(k, f, cur) := e in JC (kind_name k +++ "|" +++ render y f cur) [].
